@@ -306,7 +306,9 @@ def run(rep):
                 "target name has an outside parent) aim at the decoys; root spellings ., sub, ..; every invocation is run with decoy "
                 "content A, content B and decoys removed: exit status and stdout must be identical, no decoy content may appear; "
                 "variant A is compared with the model of os.Root; thorough tier runs under strace and requires that no decoy is "
-                "opened for reading; non-trivial = the case aims at a decoy or uses a non-trivial root spelling")
+                "opened for reading; sibling directories whose path extends the root's path; library stage: sequences of SetRoot "
+                "calls (narrowing, widening, through links) and merges before a SetRoot, compared with the model of SetRoot/os.Root; "
+                "non-trivial = the case aims at a decoy or uses a non-trivial root spelling")
     rep.proof, rep.broken = proof_step(PID)
     rng = random.Random(rep.seed)
     n = 500 if rep.tier == "quick" else 8000
